@@ -88,7 +88,8 @@ def check(ctx):
                "JSON export goes through the None-converting exporter" if ok else f"{name} no longer goes through to_list_of_dicts()", nontrivial=False)
     vt = repo.fn(f"{VEC}.tolist")
     rets = [n for n in body_nodes(vt.node) if isinstance(n, ast.Return)]
-    ok = len(rets) == 1 and norm(rets[0].value) == f"np.where({vt.params[0]}.is_na(), None, {vt.params[0]}).tolist()"
+    from ..forms import expand as _expand13
+    ok = len(rets) == 1 and norm(_expand13(vt, rets[0].value, rets[0])) == f"np.where({vt.params[0]}.is_na(), None, {vt.params[0]}).tolist()"
     ctx.ob("TNT-tolist", vt, norm(rets[0].value) if rets else "Vector.tolist", rets[0] if rets else vt.node, ok,
            "None exactly at the missing positions" if ok else "Vector.tolist no longer puts None at exactly the is_na positions",
            clause="never as a sentinel value")
